@@ -184,11 +184,13 @@ func partAConfigs(tier string) []bfsRun {
 		{bCfg{Name: "archival-2src", Archival: true, Blocks: []vBlockSpec{{Height: 1, TC: tcOut, Content: cBlob}, {Height: 2, TC: tcOut, Content: cEmpty}, {Height: 3, TC: tcIn, Content: cTx}},
 			Sources: ab, Queue: 1, FetchAns: []string{"blk", "timeout"}, SyncAns: []string{"synced", "timeout"}}, 14},
 		{bCfg{Name: "pruned-store-faults", Blocks: []vBlockSpec{{Height: 1, TC: tcIn, Content: cBlob}, {Height: 2, TC: tcIn, Content: cEmpty}},
-			Sources: ab, FetchAns: []string{"blk", "err"}, SyncAns: []string{"synced", "err"}, Faults: allFaults}, 14},
+			Sources: ab, FetchAns: []string{"blk", "err"}, SyncAns: []string{"synced", "err"}, Faults: allFaults, Avail: true, GetAns: []string{"eds"}}, 14},
 		{bCfg{Name: "archival-store-faults", Archival: true, Blocks: []vBlockSpec{{Height: 1, TC: tcOut, Content: cBlob}, {Height: 2, TC: tcOut, Content: cEmpty}},
 			Sources: []string{"A"}, FetchAns: []string{"blk"}, SyncAns: []string{"syncing"}, Faults: allFaults, Avail: true, GetAns: []string{"eds", "notfound"}}, 14},
 		{bCfg{Name: "pruned-avail-and-listener", Blocks: []vBlockSpec{{Height: 1, TC: tcOut, Content: cBlob}, {Height: 2, TC: tcIn, Content: cTxBlob}, {Height: 3, TC: tcIn, Content: cEmpty}},
-			Sources: []string{"A"}, FetchAns: []string{"blk", "err"}, SyncAns: []string{"synced", "err"}, Avail: true, GetAns: []string{"eds", "notfound", "canceled", "byz"}, Faults: []string{"link"}}, 14},
+			Sources: ab, Queue: 1, FetchAns: []string{"blk", "err"}, SyncAns: []string{"synced", "err"}, Avail: true, GetAns: allGet}, 14},
+		{bCfg{Name: "archival-avail-and-listener", Archival: true, Blocks: []vBlockSpec{{Height: 1, TC: tcOut, Content: cBlob}, {Height: 2, TC: tcOut, Content: cEmpty}, {Height: 3, TC: tcIn, Content: cTxBlob}},
+			Sources: []string{"A"}, FetchAns: []string{"blk", "err"}, SyncAns: []string{"syncing", "err"}, Avail: true, GetAns: []string{"eds", "notfound", "canceled", "byzdeadline"}, Faults: []string{"link", "q4-write"}}, 14},
 		{bCfg{Name: "pruned-restart", Blocks: []vBlockSpec{{Height: 1, TC: tcIn, Content: cBlob}, {Height: 2, TC: tcIn, Content: cEmpty}, {Height: 3, TC: tcIn, Content: cBlob, Unbuildable: true}},
 			Sources: ab, Queue: 1, FetchAns: []string{"blk", "err"}, SyncAns: []string{"synced", "err"}, Stop: true}, 14},
 		{bCfg{Name: "pruned-window-edge", Blocks: []vBlockSpec{{Height: 1, TC: tcEdge, Content: cBlob}, {Height: 2, TC: tcIn, Content: cTx}},
@@ -415,9 +417,11 @@ func TestVerifC15(t *testing.T) {
 	if quick {
 		bDeadline = time.Now().Add(20 * time.Second)
 	}
+	tB := time.Now()
 	bst := runScripts(t, rep, "B", bScripts, out, bDeadline)
+	wallB := time.Since(tB).Seconds()
 	rep.Count(bst.ran, bst.ran, 0, bst.events)
-	rep.Set("part_B", map[string]any{"contents": nContents, "scripts": len(bScripts), "scripts_run": bst.ran, "events_applied": bst.events, "completed": bst.complete})
+	rep.Set("part_B", map[string]any{"contents": nContents, "scripts": len(bScripts), "scripts_run": bst.ran, "events_applied": bst.events, "completed": bst.complete, "wall_s": wallB})
 	exhaustive = exhaustive && bst.complete
 	if len(bScripts) > 0 {
 		rep.AddSample(map[string]any{"part": "B", "cfg": bScripts[len(bScripts)/2].Cfg.String(), "steps": bScripts[len(bScripts)/2].Steps})
@@ -428,9 +432,11 @@ func TestVerifC15(t *testing.T) {
 	if quick {
 		cDeadline = time.Now().Add(20 * time.Second)
 	}
+	tC := time.Now()
 	cst := runScripts(t, rep, "C", cScripts, out, cDeadline)
+	wallC := time.Since(tC).Seconds()
 	rep.Count(cst.ran, cst.ran, 0, cst.events)
-	rep.Set("part_C", map[string]any{"layouts": nLayouts, "scripts": len(cScripts), "scripts_run": cst.ran, "events_applied": cst.events, "completed": cst.complete})
+	rep.Set("part_C", map[string]any{"layouts": nLayouts, "scripts": len(cScripts), "scripts_run": cst.ran, "events_applied": cst.events, "completed": cst.complete, "wall_s": wallC})
 	exhaustive = exhaustive && cst.complete
 	if len(cScripts) > 0 {
 		rep.AddSample(map[string]any{"part": "C", "cfg": cScripts[len(cScripts)/3].Cfg.String(), "steps": cScripts[len(cScripts)/3].Steps})
@@ -448,6 +454,7 @@ func TestVerifC15(t *testing.T) {
 			continue
 		}
 		runDeadline := time.Now().Add(left / time.Duration(len(runs)-i))
+		tA := time.Now()
 		st := vx.BFS(vx.BFSOpts{
 			MaxDepth: r.depth,
 			Deadline: runDeadline,
@@ -476,6 +483,7 @@ func TestVerifC15(t *testing.T) {
 		rep.Set(fmt.Sprintf("part_A_run_%02d", i), map[string]any{
 			"cfg": cfg.String(), "states": st.States, "transitions": st.Transitions, "depth_completed": st.DepthDone, "depth_bound": r.depth,
 			"frontier_emptied": st.Complete, "capped": st.Capped, "depth_capped": st.DepthCapped, "states_per_depth": st.PerDepth, "events_applied": st.EventsApplied,
+			"wall_s": time.Since(tA).Seconds(),
 		})
 		for _, h := range st.SampleHist {
 			if len(h) >= 5 {
